@@ -1939,7 +1939,8 @@ func (ls *LState) Status(th *LState) string {
 		status = "dead"
 	} else if ls.G.CurrentThread == th {
 		status = "running"
-	} else if ls.Parent == th {
+	} else if th.Parent != nil {
+		// it has resumed another coroutine (not necessarily the asking one) and waits for it
 		status = "normal"
 	}
 	return status
@@ -1962,7 +1963,7 @@ func (ls *LState) Resume(th *LState, fn *LFunction, args ...LValue) (ResumeState
 		})
 	}
 
-	if ls.G.CurrentThread == th {
+	if ls.G.CurrentThread == th || th.Parent != nil {
 		return ResumeError, newApiErrorS(ApiErrorRun, "can not resume a running thread"), nil
 	}
 	if th.Dead {
